@@ -97,8 +97,11 @@ def usage_case(seed, index):
     return viol
 
 
+DEFAULT_BUDGET = {'quick': 500, 'thorough': 8000}
+
+
 def run(props, tier, seed, budget=None):
-    n = budget or (400 if tier == 'quick' else 8000)
+    n = budget or DEFAULT_BUDGET[tier]
     cov, findings = generic_run('sheet', run_case, props, seed, n,
                                 'seeded random WBS (1-6 tasks, single-line texts of any length, None names, links to another WBS) printed with random field selections (incl. unknown fields), children on/off, themes, on roots / one task / a task list; plus usage tables of small schedules; distinct by input',
                                 lambda d: d if len(d['wbs']) > 1 else None)
